@@ -91,6 +91,22 @@ class Mailbox:
             yield self._q.popleft()
 
 
+class Lru(dict):
+    """A cache that keeps track of which entries were used: reading an entry is a host-visible write."""
+
+    def __init__(self, items):
+        super().__init__(items)
+        self.used = []
+
+    def __getitem__(self, key):
+        value = dict.__getitem__(self, key)
+        self.used.append(key)
+        return value
+
+    def __repr__(self):
+        return 'Lru(%d entries)' % len(self)
+
+
 class OneShot:
     """Iterable whose __iter__ may be called only once, and which counts len() calls as reads."""
 
@@ -390,6 +406,8 @@ def _build_leaf(node):
         return Mailbox([1, 2, 3])
     if k == 'oneshot':
         return OneShot()
+    if k == 'lru':
+        return Lru({'a': 1, 'b': 2, 'c': 3})
     if k == 'hsub':
         return _mk_hsub(node.get('base', 'dict'), node.get('dunder', '__len__'), node.get('exc', 'E'))
     if k in HOSTILE_KINDS:
